@@ -1,4 +1,5 @@
 import BeyondVerif.Props.C16Seq
+import BeyondVerif.Props.C16Frames
 
 /-!
 # C16 — kernel-checked counter-witnesses
@@ -93,5 +94,17 @@ theorem fixed_sequencing_on_the_witnesses :
     cwPropagateFixed Real.pi [Man.imp 1 [0, 0, 1]] 0 2 zero6 = hillSol Real.pi [Man.imp 1 [0, 0, 1]] 0 2 zero6 := by
   refine ⟨cwPropagateFixed_eq_hillSol _ Real.pi_ne_zero _ ?_ _ _ _ rfl, cwPropagateFixed_eq_hillSol _ Real.pi_ne_zero _ ?_ _ _ _ rfl,
     cwPropagateFixed_eq_hillSol _ Real.pi_ne_zero _ ?_ _ _ _ rfl⟩ <;> intro m hm <;> simp at hm <;> rcases hm with rfl | rfl <;> rfl
+
+/-- open finding C16-mean-motion-memo-stale-after-write: read n (a = 1), write `sma = 4`, read again: the memoised read returns the mean
+motion of the OLD target (1), not `meanMotionSrc 1 4` (= 1/8) -/
+theorem memo_stale_after_write :
+    (((⟨1, 1, none⟩ : Memo).read.2.write 1 4).read.1) ≠ meanMotionSrc 1 4 := by
+  have h1 : Real.sqrt (1 / (1 : ℝ) ^ 3) = 1 := by norm_num
+  have h2 : Real.sqrt (1 / (4 : ℝ) ^ 3) ^ 2 = 1 / (4 : ℝ) ^ 3 := Real.sq_sqrt (by norm_num)
+  simp only [Memo.read, Memo.write, nMemoised, meanMotionSrc, powi, sqrt, if_true]
+  intro h
+  rw [h1] at h
+  rw [← h] at h2
+  norm_num at h2
 
 end BeyondVerif.C16W
